@@ -236,6 +236,7 @@ func main() {
 		noReplay = flag.Bool("noreplay", false, "skip native replay/validation")
 		budget   = flag.Duration("budget", 0, "wall-clock budget for exploration (0 = tier default)")
 		known    = flag.String("known", "/verif/known_findings.json", "known findings file")
+		replayF  = flag.String("replayfile", "", "re-run one recorded counterexample (evidence/replay/*.json) natively and exit")
 	)
 	flag.Parse()
 	debug.SetGCPercent(400)
@@ -244,6 +245,9 @@ func main() {
 	if err != nil {
 		fmt.Fprintln(os.Stderr, "load failed:", err)
 		os.Exit(2)
+	}
+	if *replayF != "" {
+		os.Exit(replayFile(w, *replayF))
 	}
 	w.solverKind = *solver
 	w.maxBackEdges = 100000
